@@ -109,6 +109,7 @@ type Interp struct {
 	harnessFn map[*ssa.Function]bool
 	totalSteps int64
 	mapOrder  bool
+	forceLibSite bool
 	known     map[*Term]bool
 	concKnown map[*Term]uint64
 	substGen  int
